@@ -208,7 +208,7 @@ def o_mutant(rec: Recorder, case, soft=False):
             seg = hs[:i0]
             in_data_field = hs.count("$", i0) <= 1 or "$" not in hs
             if name == "scram":  # $scram$rounds$salt$alg=digest,alg=digest: every digest ends before ',' or the end
-                in_data_field = hs.count("$", i0) == 0 and "=" in hs[hs.rfind(",", 0, i0) + 1 : i0]
+                in_data_field = (hs.count("$", i0) == 0 and "=" in hs[hs.rfind(",", 0, i0) + 1 : i0]) or hs.count("$", i0) == 1
             pad_pos = in_data_field and nxt in ("", "$", "=", ",") and not (seg.endswith(",") or seg.endswith("$"))
             if "bcrypt" in name:
                 pad_pos = pad_pos or (hs.count("$", i0) == 0 and len(hs) - i0 == 32)
